@@ -5,6 +5,9 @@ from pardo_common import ParDoSpec
 PROP_FILES = ["C13"]
 
 
+SPECS = {"pardo": (ParDoSpec(), "harness_pardo", "runner-pardo")}
+
+
 def run(ctx):
     proofs_ok = ctx.check_proofs(PROP_FILES, extra_targets=["theories/Conc/ParDo.vo"])
     ok, out, exe = vlib.build_runner(module="harness_pardo", exe_name="runner-pardo")
